@@ -39,10 +39,25 @@ Oracle (real code):
          set, cwd /, rejected calls before every step; (b) in ONE child interpreter `python -O -bb -W error -X dev` with PYTHONOPTIMIZE=2
          (assert statements and docstrings stripped), fixed PYTHONHASHSEED, C locale, ascii stdio, another TZ, whose first library calls
          are rejected ones: every canonical observable must equal what the plain run in the parent gave
+  foreign (after seeded changes C01-G, C01-H) payload content that is itself a valid object of another kind: the vocoder bits / the 32
+         embedded bits / the octets of a data block are ANY bits for the property, in particular everything the library serialises for
+         something else.  A dictionary harvested from the library's own serialisers - every payload kind x variant assembled into a data
+         burst with generated check fields (as serialised; one FEC-correctable step away; the slot type word of every data type over the
+         same payload; payload only / slot type only; complemented), code words of EVERY FEC encoder x every boolean option read from
+         its signature (all 2 x 2^11 VBPTC(32,11) words of both parity rows, their 1-2 bit neighbours and cosets; the four fragments of
+         VBPTC(128,72) embedded LCs; VBPTC(68,28) short LC words; BPTC, trellis, Golay, QR, Hamming x5, RS x3 masks), sync patterns, EMB and
+         slot type words, numeric / bytes / hex literals of the current source - placed in the vocoder bits (aligned at the payload / slot
+         type positions, every other alignment, tiled) and in the embedded bits, crossed with valid EMB of every LCSS (colour code equal
+         to / different from the donor's, both PI), every voice sync, the two other syncs, every announced burst type; voice superframes
+         A..F carrying an embedded LC parsed in order / reversed; the transplanted bursts through from_mmdvm / from_hytera_ipsc /
+         constructor forms / copies; derived quantities (population count of embedded / vocoder bits swept, equal vocoder frames /
+         halves, embedded bits a function of the vocoder bits or of the burst's own EMB word, the centre repeated in the vocoder bits);
+         data blocks whose octets are a voice burst's bits, serialised PDUs, a BPTC code word that fits a rate 1 block, sync patterns
 Correspondence (model vs code): burst.build -> bits; burst.parse -> sync, flags, EMB, slot type, payload fields, as_bits or error
 kind, also for random and corrupted 264-bit strings; slot.dec / emb.dec; sync.resolve on the structured centres; burst.mmdvm / burst.ipsc:
 Burst.from_mmdvm / Burst.from_hytera_ipsc against the model's fromMmdvm / fromIpsc (announced burst type from the frame, pseudo bursts,
-undefined enum values rejected).
+undefined enum values rejected); burst.transplant: the model builds the voice burst from the donor burst and the centre itself
+(Burst.transplant, the definition Props/C01 transplant_roundtrip speaks about).
 """
 import copy
 import enum
@@ -106,7 +121,18 @@ def sync_sets():
 
 # ------------------------------------------------------------------------------------------------
 # payload kinds: (driver kind name, data type, c03 kind, variant filter, field text)
+_SOURCES = []
+
+
 def payload_sources():
+    """(driver kind name, data type, c03 kind, rate variant name) of every supported payload kind; built once (the kinds are stateless
+    descriptions: field specs and constructors)"""
+    if not _SOURCES:
+        _SOURCES.extend(_payload_sources())
+    return list(_SOURCES)
+
+
+def _payload_sources():
     Burst, BT, DT, SP, ST, EMB = lib()
     ks = {k.name: k for k in c03.kinds()}
     out = []
@@ -1163,6 +1189,8 @@ def run_input(r, inp, pairs, hold=None):
         check_entry(r, inp, pairs, hold=hold)
     elif mode == "generator":
         check_generator(r, {k: v for k, v in inp.items() if k != "burst"}, pairs)
+    elif mode == "sequence":
+        check_sequence(r, {k: v for k, v in inp.items() if k not in ("burst", "history")}, pairs, hold=hold)
     else:
         raise KeyError(f"unknown input mode {mode}")
 
@@ -1496,6 +1524,25 @@ def ambient_sample(rng, n_hist=1):
     out.append({"mode": "entry", "entry": {"via": "assemble"}, "content": data_content(rng, kname, src, src.variants[1], 4, SP.Tdma2Data), "attrs": "all"})
     out.append({"mode": "entry", "entry": {"via": "from_bits", "bt": "V"}, "content": voice_contents(rng)[2], "attrs": "all"})
     out += generator_cases(rng)[::3]
+    # foreign content: vocoder bits = a serialised PI header / CSBK burst around valid EMB, embedded bits = VBPTC(32,11) words of every
+    # option with LCSS 0, a rate 1 block holding the bits of a voice burst
+    embs = emb_table()
+    for c in [d for d in data_donors(rng, 1) if d["kind"] in ("pi", "csbk")][:3]:
+        x, _view = content_bits(c)
+        cc, pi, lcss, e16 = rng.choice(embs)
+        xv = x[:108] + e16[:8] + rbits(rng, 32) + e16[8:] + x[156:]
+        for bt in ("V", "U"):
+            out.append({"mode": "voice", "bits": c03.sbits(xv), "burst_type": bt, "class": f"vocoder bits = the halves of a serialised {c['kind']} burst"})
+    words = vbptc3211_words()
+    for m, name, w in [words[i] for i in sorted(rng.sample(range(len(words)), 6))] + words[-2:]:
+        cc, pi, lcss, e16 = embs[4 * 8 * rng.randrange(4)]
+        xv = voice_frame(rbits(rng, 216), e16[:8] + w + e16[8:])
+        out.append({"mode": "voice", "bits": c03.sbits(xv), "burst_type": "V", "class": f"embedded bits = {name} code word"})
+    kname, dt, src, _t = next(t for t in srcs if t[0] == "rate1")
+    xv = voice_frame(rbits(rng, 216), voice[0].as_bits())
+    info = xv[:98] + xv[166:]
+    out.append(dict(data_content(rng, kname, src, src.variants[0], 7, SP.MsSourcedData), mode="data"))
+    out[-1]["fields"]["data"] = fill_octets(info[:96] + info[100:], len(out[-1]["fields"]["data"]) // 2)
     return out
 
 
@@ -1609,6 +1656,631 @@ def check_provenance(ctx, pairs, hold):
         check_generator(ctx, inp, pairs)
 
 
+# ------------------------------------------------------------------------------------------------
+# payload content that is itself a valid object of another kind (hardening after seeded changes C01-G and C01-H).  For the property
+# the 216 vocoder bits, the 32 embedded bits and the octets of a data block are ANY bits - in particular every bit string the library
+# itself serialises for something else.  A parser that looks into them ("a voice burst whose vocoder bits are a PI header burst is
+# really data", "embedded bits that are a reverse channel word: keep the 11 info bits and re-encode") meets such content only when it
+# is generated on purpose (about 2^-32 / 2^-21 of the random bursts).  General mechanism: a dictionary of foreign objects harvested
+# from the library's own serialisers (every payload kind x variant assembled into a data burst; every FEC encoder / checksum generator
+# x every boolean option of it; sync patterns, EMB and slot type words; PDUs with generated check fields; literals of the current
+# source), placements of each into the vocoder bits / the embedded bits / a data block, crossed with every centre (voice syncs, the
+# other syncs, valid EMB of every LCSS) and every announced burst type, through the same round-trip oracle as everything else.
+SLOT_POS = list(range(98, 108)) + list(range(156, 166))
+INFO_POS = list(range(98)) + list(range(166, 264))
+
+
+def to_bits(a):
+    """big-endian bitarray of what an encoder returned (bitarray / bytes / numpy array / list)"""
+    if isinstance(a, bitarray):
+        return bitarray(a.to01())
+    if isinstance(a, (bytes, bytearray)):
+        b = bitarray()
+        b.frombytes(bytes(a))
+        return b
+    return bitarray("".join("1" if int(x) & 1 else "0" for x in a))
+
+
+def rbits(rng, n):
+    return int2ba(rng.getrandbits(n), length=n) if n else bitarray()
+
+
+def bool_options(fn):
+    """every combination of the parameters of an encoder that default to a bool (VBPTC3211.encode(..., even_parity=True)): EVERY
+    argument of every encoder, read from the signature in the tree under test"""
+    import inspect
+    import itertools
+
+    try:
+        ps = [p.name for p in inspect.signature(fn).parameters.values() if isinstance(p.default, bool)]
+    except (TypeError, ValueError):
+        ps = []
+    return [dict(zip(ps, vs)) for vs in itertools.product((True, False), repeat=len(ps))]
+
+
+def fec_encoders():
+    """[(name, message length in bits, message bits -> code word bits)]: every FEC encoder / parity generator of the library x every
+    combination of its boolean options"""
+    from okdmr.dmrlib.etsi.fec.bptc_196_96 import BPTC19696
+    from okdmr.dmrlib.etsi.fec.golay_20_8_7 import Golay2087
+    from okdmr.dmrlib.etsi.fec.hamming_13_9_3 import Hamming1393
+    from okdmr.dmrlib.etsi.fec.hamming_15_11_3 import Hamming15113
+    from okdmr.dmrlib.etsi.fec.hamming_16_11_4 import Hamming16114
+    from okdmr.dmrlib.etsi.fec.hamming_17_12_3 import Hamming17123
+    from okdmr.dmrlib.etsi.fec.hamming_7_4_3 import Hamming743
+    from okdmr.dmrlib.etsi.fec.quadratic_residue_16_7_6 import QuadraticResidue1676
+    from okdmr.dmrlib.etsi.fec.reed_solomon_12_9_4 import ReedSolomon1294
+    from okdmr.dmrlib.etsi.fec.trellis import Trellis34
+    from okdmr.dmrlib.etsi.fec.vbptc_128_72 import VBPTC12873
+    from okdmr.dmrlib.etsi.fec.vbptc_32_11 import VBPTC3211
+    from okdmr.dmrlib.etsi.fec.vbptc_68_28 import VBPTC6828
+    from okdmr.dmrlib.etsi.layer2.elements.crc_masks import CrcMasks
+
+    out = []
+
+    def add(name, k, fn):
+        for kw in bool_options(fn):
+            tag = name + "".join(f" {a}={v}" for a, v in kw.items())
+            out.append((tag, k, (lambda m, fn=fn, kw=kw: to_bits(fn(bitarray(m), **kw)))))
+
+    add("VBPTC(32,11)", 11, VBPTC3211.encode)
+    add("VBPTC(68,28)", 28, VBPTC6828.encode)
+    add("VBPTC(128,72)", 72, VBPTC12873.encode)
+    add("BPTC(196,96)", 96, BPTC19696.encode)
+    add("trellis 3/4", 144, Trellis34.encode)
+    add("Golay(20,8,7)", 8, Golay2087.generate)
+    add("QR(16,7,6)", 7, QuadraticResidue1676.generate)
+    for H in (Hamming743, Hamming1393, Hamming15113, Hamming16114, Hamming17123):
+        add(f"Hamming({H.CODEWORD_LENGTH},{H.CODE_DIMENSION})", H.CODE_DIMENSION, H.generate)
+    for mname, mask in (("no", 0), ("voice LC header", CrcMasks.VoiceLCHeader.value), ("terminator", CrcMasks.TerminatorWithLC.value)):
+        out.append((f"RS(12,9,4) {mname} mask", 72, (lambda m, mask=mask: to_bits(ReedSolomon1294.generate(m.tobytes(), mask.to_bytes(3, "big"))))))
+    return out
+
+
+def vbptc3211_words():
+    """ALL code words VBPTC3211.encode yields: 2^11 messages x every option (both parity rows): [(message, options text, 32 bits)]"""
+    if not _VBPTC3211:
+        for name, k, enc in fec_encoders():
+            if name.startswith("VBPTC(32,11)"):
+                for m in range(2 ** k):
+                    _VBPTC3211.append((m, name, enc(int2ba(m, length=k))))
+    return list(_VBPTC3211)
+
+
+_VBPTC3211 = []
+
+
+def harvested_literals():
+    """bit strings of the numeric (>= 256) / bytes / hex-string / 0-1-string literals in the CURRENT source of the anchored files and
+    the codecs next to them: a constant that a changed parser compares payload content with stands in its source.  [(where, bits)]"""
+    import ast
+    import os
+    import re
+
+    import okdmr.dmrlib as _l
+
+    root = os.path.dirname(os.path.abspath(_l.__file__))
+    files = []
+    for rel in ("etsi/layer2/burst.py", "etsi/layer2/pdu", "etsi/layer2/elements", "etsi/fec", "transmission/transmission_generator.py"):
+        p = os.path.join(root, rel)
+        if os.path.isdir(p):
+            files += sorted(os.path.join(p, f) for f in os.listdir(p) if f.endswith(".py"))
+        elif os.path.exists(p):
+            files.append(p)
+    seen = {}
+    for f in files:
+        try:
+            tree = ast.parse(open(f, encoding="utf-8").read())
+        except (OSError, SyntaxError, ValueError):
+            continue
+        for node in ast.walk(tree):
+            if not isinstance(node, ast.Constant) or isinstance(node.value, bool):
+                continue
+            v, b = node.value, None
+            if isinstance(v, int) and v >= 256:
+                b = int2ba(v, length=8 * ((v.bit_length() + 7) // 8))
+            elif isinstance(v, bytes) and len(v) >= 2:
+                b = to_bits(v)
+            elif isinstance(v, str) and re.fullmatch(r"(0x)?([0-9a-fA-F]{2}){3,33}", v):
+                b = to_bits(bytes.fromhex(v[2:] if v.startswith("0x") else v))
+            elif isinstance(v, str) and re.fullmatch(r"[01]{8,264}", v):
+                b = bitarray(v)
+            if b is not None and 8 <= len(b) <= 264 and b.to01() not in seen:
+                seen[b.to01()] = f"{os.path.relpath(f, root)}:{node.lineno}"
+    return [(w, bitarray(s)) for s, w in sorted(seen.items(), key=lambda t: (t[1], t[0]))][:400]
+
+
+def fit32(w, rng):
+    """32 embedded bits made of the word w: [(how, bits)]"""
+    n = len(w)
+    if n == 32:
+        return [("the word", bitarray(w))]
+    if n < 32:
+        z = bitarray(32 - n)
+        z.setall(0)
+        return [("word + zeros", w + z), ("zeros + word", z + w), ("word + random bits", w + rbits(rng, 32 - n)), ("word repeated", (w * (32 // n + 1))[:32])]
+    if n % 32 == 0:
+        return [(f"fragment {i + 1} of {n // 32}", w[32 * i:32 * i + 32]) for i in range(n // 32)]
+    return [(f"bits {o}..{o + 31}", w[o:o + 32]) for o in sorted({0, n - 32, (n - 32) // 2})]
+
+
+def fit216(w, rng):
+    """216 vocoder bits that hold the word w: [(how, bits)]"""
+    n = len(w)
+    if n == 264:
+        return [("both burst halves, centre removed", w[:108] + w[156:])]
+    if n > 216:
+        return [("first 216 bits", w[:216]), ("last 216 bits", w[-216:])]
+    out = []
+    if n == 196:  # the payload positions of a data burst (slot type positions random)
+        v = rbits(rng, 216)
+        v[:98], v[118:] = w[:98], w[98:]
+        out.append(("at the payload positions", v))
+    offs = {0, 216 - n, (216 - n) // 2}
+    if n <= 108:
+        offs |= {108 - n, 108, 72 if n <= 72 else 0, 144 if n <= 72 else 0}
+    if n <= 20:
+        offs.add(98)
+    for o in sorted(offs):
+        v = rbits(rng, 216)
+        v[o:o + n] = w
+        out.append((f"at vocoder bit {o}", v))
+    if n < 216:
+        out.append(("repeated to fill the vocoder bits", (w * (216 // n + 1))[:216]))
+    return out
+
+
+def valid_check_fields(kname, var, vals):
+    """the field values with the check field left to the library: CRC generated by the constructor, RS(12,9,4) parity of a full LC
+    generated by ReedSolomon1294 with the mask of the data type - the payload a transmitter sends"""
+    v = dict(vals)
+    if kname == "csbk":
+        v["crc"] = 0
+    elif kname == "dh":
+        v["crc"] = "0" * 16
+    elif kname in ("vlc", "tlc"):
+        from okdmr.dmrlib.etsi.fec.reed_solomon_12_9_4 import ReedSolomon1294
+        from okdmr.dmrlib.etsi.layer2.elements.crc_masks import CrcMasks
+
+        mask = (CrcMasks.VoiceLCHeader if kname == "vlc" else CrcMasks.TerminatorWithLC).value.to_bytes(3, "big")
+        lc = var.build(dict(v, crc="0" * 24)).as_bits()[:72]
+        v["crc"] = to_bits(ReedSolomon1294.generate(lc.tobytes(), mask)[9:]).to01()
+    elif "crc9" in v:
+        v["crc9"] = 0
+    return v
+
+
+def data_donors(rng, per):
+    """library-serialised data bursts as donors: per payload kind x variant `per` content descriptions (colour code and data sync
+    rotating, check fields generated)"""
+    voice, data, other = sync_sets()
+    out, k = [], 0
+    for kname, dt, src, _t in payload_sources():
+        for var in src.variants:
+            for _ in range(per):
+                k += 1
+                c = data_content(rng, kname, src, var, (5 * k + k // 16) % 16, data[k % 4])
+                c["fields"], err = call(valid_check_fields, kname, var, c["fields"])
+                if not err:
+                    out.append(c)
+    return out
+
+
+def transplant_variants(rng, x, cc, slot_types):
+    """216 vocoder bits made of the two halves of the data burst x: as serialised; one FEC-correctable step away (a sniffing parser
+    that repairs first); the slot type word of other data types over the same payload; payload without / slot type without the
+    other; complemented.  [(how, vocoder bits)]"""
+    Burst, BT, DT, SP, ST, EMB = lib()
+
+    def halves(y):
+        return y[:108] + y[156:]
+
+    out = [("as serialised", halves(x))]
+    out.append(("slot type word with one bit inverted", halves(flipped(x, [rng.choice(SLOT_POS)]))))
+    out.append(("payload with 1-2 bits inverted", halves(flipped(x, rng.sample(INFO_POS, rng.choice((1, 2)))))))
+    for dtm in slot_types:
+        w, err = call(lambda: ST(colour_code=cc, data_type=dtm).as_bits())
+        if not err:
+            y = bitarray(x)
+            y[98:108], y[156:166] = w[:10], w[10:]
+            out.append((f"slot type word of {dtm.name} over the same payload", halves(y)))
+    y = bitarray(x)
+    for i in SLOT_POS:
+        y[i] = rng.getrandbits(1)
+    out.append(("payload only (slot type positions random)", halves(y)))
+    y = bitarray(x)
+    for i in INFO_POS:
+        y[i] = rng.getrandbits(1)
+    out.append(("slot type word only (payload positions random)", halves(y)))
+    out.append(("complemented", halves(~x)))
+    return out
+
+
+def lc_fragments(rng, n):
+    """embedded LC as a transmitter sends it: n full LCs (every variant of the C03 generator in turn) -> VBPTC12873.encode -> four
+    32-bit fragments with the LCSS the standard gives them (first 1, continuation 3, 3, last 2): [(what, [(lcss, 32 bits)] * 4)]"""
+    from okdmr.dmrlib.etsi.fec.vbptc_128_72 import VBPTC12873
+
+    ks = payload_text.kinds or {k.name: k for k in c03.kinds()}
+    out = []
+    for i in range(n):
+        var = ks["flc"].variants[i % len(ks["flc"].variants)]
+        vals = var.random_vals(rng)
+        if var.fix:
+            vals = var.fix(vals)
+        vals["crc"] = "0" * 24
+        r, err = call(lambda: to_bits(VBPTC12873.encode(var.build(vals).as_bits()[:72])))
+        if not err and len(r) == 128:
+            out.append((f"embedded LC ({var.name})", [(lcss, r[32 * j:32 * j + 32]) for j, lcss in enumerate((1, 3, 3, 2))]))
+    return out
+
+
+def short_lc_words(rng, n):
+    """short LC (CACH) words: ShortLinkControl built by the library (CRC-8 generated) -> VBPTC6828.encode -> 68 bits"""
+    from okdmr.dmrlib.etsi.fec.vbptc_68_28 import VBPTC6828
+
+    ks = payload_text.kinds or {k.name: k for k in c03.kinds()}
+    out = []
+    for i in range(n):
+        var = ks["slc"].variants[i % len(ks["slc"].variants)]
+        vals = dict(var.random_vals(rng), crc="0" * 8)
+        r, err = call(lambda: to_bits(VBPTC6828.encode(var.build(vals).as_bits()[:28])))
+        if not err:
+            out.append((f"short LC ({var.name}) VBPTC(68,28) word", r))
+    return out
+
+
+def word_dictionary(rng, per):
+    """named bit strings the library serialises for something else (besides whole data bursts): code words of every FEC encoder x
+    option (zero / all-ones / random messages), short LC words, sync patterns, EMB and slot type words, literals of the source"""
+    Burst, BT, DT, SP, ST, EMB = lib()
+    voice, data, other = sync_sets()
+    out = []
+    for name, k, enc in fec_encoders():
+        msgs = [bitarray("0" * k), bitarray("1" * k)] + [rbits(rng, k) for _ in range(per)]
+        for m in msgs:
+            w, err = call(enc, m)
+            if not err:
+                out.append((f"{name} code word", w))
+    out += short_lc_words(rng, 2 * per)
+    for s in voice + data + other:
+        out.append((f"sync pattern {s.name}", s.as_bits()))
+    for cc, pi, lcss, e16 in rng.sample(emb_table(), 2 * per):
+        out.append((f"EMB word cc={cc} pi={pi} lcss={lcss}", bitarray(e16)))
+        out.append((f"EMB word cc={cc} pi={pi} lcss={lcss} and its complement", e16 + ~e16))
+    for _ in range(2 * per):
+        cc, dtm = rng.randrange(16), rng.choice([m for m in DT])
+        w, err = call(lambda: ST(colour_code=cc, data_type=dtm).as_bits())
+        if not err:
+            out.append((f"slot type word cc={cc} {dtm.name}", w))
+    for where, b in harvested_literals():
+        out.append((f"literal at {where}", b))
+    return out
+
+
+def popcount_word(rng, n, k):
+    """n bits of which exactly k are set"""
+    b = bitarray(n)
+    b.setall(0)
+    for i in rng.sample(range(n), k):
+        b[i] = 1
+    return b
+
+
+def derived_embedded(rng, v):
+    """32 embedded bits that are a function of the vocoder bits v of the same burst (correlation between unrelated parts)"""
+    import zlib
+
+    fold = bitarray(32)
+    fold.setall(0)
+    for i in range(0, 192, 32):
+        fold ^= v[i:i + 32]
+    return [("first 32 vocoder bits", v[:32]), ("vocoder bits left of the centre", v[76:108]), ("vocoder bits right of the centre", v[108:140]),
+            ("last 32 vocoder bits", v[-32:]), ("CRC-32 of the vocoder octets", int2ba(zlib.crc32(v.tobytes()), length=32)), ("XOR of the vocoder words", fold),
+            ("complement of the vocoder bits left of the centre", ~v[76:108])]
+
+
+def foreign_blocks(rng, x_voice, pdus):
+    """octet strings for the data field of a block that are something else: the payload positions of a voice burst, whole PDUs the
+    library serialised (a block equal to the transmission's own header), a BPTC code word, sync patterns"""
+    voice, data, other = sync_sets()
+    info = x_voice[:98] + x_voice[166:]
+    out = [("the bits of a voice burst at the payload positions", info[:96] + info[100:])]
+    for name, b in pdus:
+        out.append((f"{name} twice", b + b))
+    s1, s2, s3, s4 = (s.as_bits() for s in rng.sample(voice + data + other, 4))
+    out.append(("four sync patterns", s1 + s2 + s3 + s4))
+    return out
+
+
+def fill_octets(b, n):
+    """n octets from the bit string b (cut / repeated)"""
+    b = (b * (8 * n // len(b) + 1))[:8 * n]
+    return b.tobytes().hex()
+
+
+def check_sequence(r, inp, pairs, hold=None):
+    """bursts parsed one after the other (a voice superframe: embedded LC fragments in order); every burst survives parse-then-
+    serialise at once, and every parse result still serialises to its own bits after all the others were parsed"""
+    Burst, BT, DT, SP, ST, EMB = lib()
+    kept = []
+    for i, xs in enumerate(inp["bursts"]):
+        x = bitarray(xs)
+        q, err = call(Burst.from_bytes, x.tobytes(), getattr(BT, BT_NAMES[inp["burst_type"]]))
+        if err:
+            r.fail("parse-raises", inp, f"burst {i} of the sequence: parsing raised {err}", actual=err)
+            pairs.append((f"burst.parse {inp['burst_type']} {xs}", err))
+            continue
+        pairs.append((f"burst.parse {inp['burst_type']} {xs}", parse_text(q)))
+        got = bits_or_err(q)
+        if got != xs:
+            r.fail("voice-roundtrip", dict(inp, burst=i), f"burst {i} of the sequence ({inp.get('class', '')}) does not survive parse-then-serialise", expected=xs, actual=got)
+            continue
+        kept.append((i, q, xs))
+        if hold is not None:
+            hold.offer(q, x.tobytes(), None, dict(inp, burst=i))
+    for i, q, xs in kept:
+        got = bits_or_err(q)
+        if got != xs:
+            r.fail("reuse-held-object-changed", dict(inp, burst=i, history="the later bursts of the sequence were parsed"),
+                   f"burst {i} of the sequence serialises differently after the following bursts were parsed", expected=xs, actual=got)
+
+
+def check_foreign(ctx, hold):
+    Burst, BT, DT, SP, ST, EMB = lib()
+    rng = ctx.rng
+    voice, data, other = sync_sets()
+    embs = emb_table()
+    emb_of = {(cc, pi, lcss): e16 for cc, pi, lcss, e16 in embs}
+    pairs, pairs_build, pairs_parse, pairs_entry = [], [], [], []
+    full = ctx.thorough()
+    n = [0]
+
+    def centre_emb(cc, pi, lcss, e32):
+        e16 = emb_of[(cc, pi, lcss)]
+        return e16[:8] + e32 + e16[8:]
+
+    def probe(v, centre, bts, what, cls, keep=4, reuse=False, donor=None):
+        """one voice burst through the round-trip oracle for every announced burst type of bts; every keep-th goes to the model, too
+        (donor: the 264 bits whose halves v is - the model then builds the burst itself: driver op burst.transplant)"""
+        x = voice_frame(v, centre)
+        xs = c03.sbits(x)
+        for bt in bts:
+            n[0] += 1
+            ctx.case(("foreign", bt, xs))
+            sink = []
+            check_voice(ctx, x, bt, what, {"mode": "voice", "bits": xs, "burst_type": bt, "class": cls}, sink, hold=hold, twice=reuse)
+            if n[0] % keep == 0:
+                pairs.extend((f"burst.transplant {bt} {c03.sbits(donor)} {c03.sbits(centre)}", o) if donor is not None else (l, o) for l, o in sink)
+        return x
+
+    # ---- (1) vocoder bits = the two halves of a library-serialised data burst, every payload kind x variant (check fields valid)
+    words = vbptc3211_words()
+    fam_names = list(dict.fromkeys(name for _m, name, _w in words))
+    by_fam = {f: [w for _m, name, w in words if name == f] for f in fam_names}
+    per = 4 if ctx.thorough() else 2
+    donors = data_donors(rng, per)
+    pi_halves = []
+    all_dt = [m for m in DT]
+    entry_pool, seen_kinds = [], set()
+
+    def embedded_of(ek):
+        """embedded bits of a transplant: random / null / a code word of each VBPTC(32,11) family (a reverse channel word)"""
+        return rbits(rng, 32) if ek == 0 else bitarray("0" * 32) if ek == 1 else rng.choice(by_fam[fam_names[ek - 2]])
+
+    for k, c in enumerate(donors):
+        r, err = call(content_bits, c)
+        if err:
+            continue  # reported by the plain data path
+        x, view = r
+        first = k % per == 0
+        if c["kind"] == "pi":
+            pi_halves.append(x[:108] + x[156:])
+        slot_types = all_dt if (first and (ctx.thorough() or c["kind"] in ("pi", "csbk", "rate34"))) else rng.sample(all_dt, 2)
+        for j, (how, v) in enumerate(transplant_variants(rng, x, c["cc"], slot_types) if first else [("as serialised", x[:108] + x[156:])]):
+            cls = f"vocoder bits = the halves of a serialised {c['kind']}/{c['variant']} data burst (cc={c['cc']}, {c['sync']}), {how}"
+            ctx.count(f"foreign:vocoder=data-burst:{c['kind']}")
+            ctx.count(f"foreign:vocoder=data-burst:{how.split(' over ')[0].split(' (')[0]}")
+            if j == 0 and first:
+                # the complete cross: colour code of the EMB equal to / different from the slot type's x PI x every LCSS x embedded bits
+                # random / null / a code word of each VBPTC(32,11) family x announced V / U
+                combos = [(same, pi_e, lcss, ek) for same in (1, 0) for pi_e in (0, 1) for lcss in range(4) for ek in range(2 + len(fam_names))]
+            else:
+                combos = [(rng.randrange(2), rng.randrange(2), lcss, rng.randrange(2 + len(fam_names))) for lcss in range(4)]
+            for same, pi_e, lcss, ek in combos:
+                cc_e = c["cc"] if same else (c["cc"] + 1 + rng.randrange(15)) % 16
+                xv = probe(v, centre_emb(cc_e, pi_e, lcss, embedded_of(ek)), ("V", "U"), f"EMB cc={cc_e} pi={pi_e} lcss={lcss}", cls + f"; EMB cc={cc_e} pi={pi_e} lcss={lcss}",
+                           reuse=(j == 0 and (same, pi_e, ek) == (1, 0, 0)), donor=x if j == 0 else None)
+                if j == 0 and first and (same, pi_e, ek) == (lcss % 2, lcss // 2, lcss):
+                    # announced as data: outside the property (the data path on a burst without data sync), correspondence only
+                    q, out = impl_parse(xv, "D")
+                    pairs.append((f"burst.parse D {c03.sbits(xv)}", out))
+                    entry_pool.append((xv, cls, c["kind"] not in seen_kinds or (len(entry_pool) // 4 + lcss) % 4 == 0))
+            for s_ in (voice if j == 0 else [voice[(k + j) % 4]]):
+                probe(v, s_.as_bits(), ("V", "U", "D"), f"sync {s_.name}", cls + f"; {s_.name}", donor=x if j == 0 else None)
+            for s_ in (other if j == 0 else [other[(k + j) % len(other)]]):
+                probe(v, s_.as_bits(), ("V", "U"), f"sync {s_.name}", cls + f"; {s_.name}")
+        seen_kinds.add(c["kind"])
+    # ---- (2) the 32 embedded bits = every code word of VBPTC(32,11) (all 2^11 messages x both parity rows: reverse channel words): with
+    # LCSS 0 all of them x PI x announced V / U, with the other LCSS a share; neighbours and cosets of the code words; vocoder bits
+    # random / a serialised PI header burst
+    stride = 1 if ctx.thorough() else 4 if ctx.boost > 1 else 8
+    for i, (m, name, w) in enumerate(words):
+        for lcss in range(4):
+            if lcss and (i + lcss) % stride:
+                continue
+            for pi_e in ((0, 1) if lcss == 0 or ctx.thorough() else ((i >> 4) % 2,)):
+                cc_e = (i + 3 * lcss + 5 * pi_e) % 16
+                v = rbits(rng, 216) if i % 16 or not pi_halves else pi_halves[(i // 16) % len(pi_halves)]
+                ctx.count(f"foreign:embedded={name}:lcss={lcss}")
+                probe(v, centre_emb(cc_e, pi_e, lcss, w), ("V", "U") if lcss == 0 or ctx.thorough() else ("VU"[(i + lcss) % 2],),
+                      f"EMB cc={cc_e} pi={pi_e} lcss={lcss}", f"embedded bits = {name} code word of message {m:011b}; EMB cc={cc_e} pi={pi_e} lcss={lcss}", keep=16)
+    fams = {}
+    for m, name, w in words:  # (the families' difference is read off the library's own words: message 0 under every option)
+        if m == 0:
+            fams[name] = w
+    names = list(fams)
+    masks = [("all bits inverted", bitarray("1" * 32))]
+    for a in range(len(names)):
+        for b in range(a + 1, len(names)):
+            d = fams[names[a]] ^ fams[names[b]]
+            if d.any() and not d.all():
+                masks.append((f"the bits inverted on which '{names[a]}' and '{names[b]}' agree for message 0", ~d))
+    sample = rng.sample(words, min(len(words), ctx.budget(384, 4096) // ctx.boost or 1))
+    for i, (m, name, w) in enumerate(sample):
+        near = [("one bit inverted", flipped(w, [rng.randrange(32)])), ("two bits inverted", flipped(w, rng.sample(range(32), 2)))]
+        near += [(mname, w ^ mask) for mname, mask in masks]
+        for how, e32 in near:
+            lcss = 0 if i % 2 else rng.randrange(4)
+            cc_e, pi_e = rng.randrange(16), rng.randrange(2)
+            ctx.count(f"foreign:embedded=VBPTC(32,11) neighbour:{how.split(' of ')[0]}")
+            probe(rbits(rng, 216), centre_emb(cc_e, pi_e, lcss, e32), (rng.choice("VU"),), f"EMB cc={cc_e} pi={pi_e} lcss={lcss}",
+                  f"embedded bits = {name} code word of message {m:011b} with {how}; EMB cc={cc_e} pi={pi_e} lcss={lcss}", keep=8)
+    # ---- (3) embedded LC: the four fragments of VBPTC(128,72) words with the LCSS the standard gives them, and with every LCSS;
+    # as a sequence of bursts B..E of one superframe after burst A (voice sync), burst F with a reverse channel word / null
+    for what, frags in lc_fragments(rng, ctx.budget(6, 60) // ctx.boost or 1):
+        cc_e, pi_e = rng.randrange(16), 0
+        seq = [voice_frame(rbits(rng, 216), rng.choice(voice).as_bits())]
+        for j, (lcss, f) in enumerate(frags):
+            for l2 in range(4):
+                ctx.count(f"foreign:embedded=LC fragment:lcss={l2}")
+                x = probe(rbits(rng, 216), centre_emb(cc_e, pi_e, l2, f), ("V", "U") if l2 == lcss else (rng.choice("VU"),), f"EMB cc={cc_e} pi={pi_e} lcss={l2}",
+                          f"embedded bits = fragment {j + 1} of 4 of an {what}; EMB cc={cc_e} pi={pi_e} lcss={l2}", keep=2)
+                if l2 == lcss:
+                    seq.append(x)
+        m, name, w = rng.choice(words)
+        seq.append(voice_frame(rbits(rng, 216), centre_emb(cc_e, 1, 0, w)))
+        for order in ("in order", "fragments reversed"):
+            ss = seq if order == "in order" else [seq[0]] + seq[4:0:-1] + [seq[5]]
+            for bt in ("V", "U"):
+                inp = {"mode": "sequence", "bursts": [c03.sbits(x) for x in ss], "burst_type": bt,
+                       "class": f"voice superframe A..F, {what} in bursts B..E ({order}), {name} code word in burst F"}
+                ctx.case(("foreign-sequence", json.dumps(inp, sort_keys=True)))
+                ctx.count("foreign:sequence=voice superframe with embedded LC")
+                check_sequence(ctx, inp, pairs, hold=hold)
+    # ---- (4) every other word of the dictionary in the embedded bits and in the vocoder bits (every placement) x every LCSS / sync
+    dic = word_dictionary(rng, ctx.budget(2, 12) // ctx.boost or 1)
+    for i, (name, w) in enumerate(dic):
+        fam_ = name.split(" code word")[0] if " code word" in name else " ".join(name.split(" ")[:2]).split(" cc=")[0]
+        for how, e32 in fit32(w, rng):
+            for lcss in range(4):
+                cc_e, pi_e = rng.randrange(16), rng.randrange(2)
+                ctx.count(f"foreign:embedded={fam_}")
+                probe(rbits(rng, 216), centre_emb(cc_e, pi_e, lcss, e32), ("VU"[(i + lcss) % 2],), f"EMB cc={cc_e} pi={pi_e} lcss={lcss}",
+                      f"embedded bits = {name}, {how}; EMB cc={cc_e} pi={pi_e} lcss={lcss}", keep=8)
+        for j, (how, v) in enumerate(fit216(w, rng)):
+            ctx.count(f"foreign:vocoder={fam_}")
+            cls = f"vocoder bits hold {name} {how}"
+            cc_e, pi_e, lcss = rng.randrange(16), rng.randrange(2), (i + j) % 4
+            probe(v, centre_emb(cc_e, pi_e, lcss, rbits(rng, 32)), ("V", "U"), f"EMB cc={cc_e} pi={pi_e} lcss={lcss}", cls + f"; EMB cc={cc_e} pi={pi_e} lcss={lcss}", keep=8)
+            s = (voice + other)[(i + j) % (len(voice) + len(other))]
+            probe(v, s.as_bits(), ("V", "U", "D") if s in voice else ("V", "U"), f"sync {s.name}", cls + f"; {s.name}", keep=8)
+    # ---- (5) derived quantities and relations between the parts of one burst: population count of the embedded / vocoder bits swept,
+    # repeated sub-blocks (three equal vocoder frames, equal halves), embedded bits that are a function of the vocoder bits
+    for kpop in range(33):
+        lcss = kpop % 4
+        cc_e, pi_e = rng.randrange(16), rng.randrange(2)
+        ctx.count("foreign:derived=population count of the embedded bits")
+        probe(rbits(rng, 216), centre_emb(cc_e, pi_e, lcss, popcount_word(rng, 32, kpop)), ("VU"[kpop % 2],), f"EMB cc={cc_e} pi={pi_e} lcss={lcss}",
+              f"embedded bits with exactly {kpop} ones; EMB cc={cc_e} pi={pi_e} lcss={lcss}", keep=8)
+    for kpop in range(0, 217, 1 if full else 3):
+        ctx.count("foreign:derived=population count of the vocoder bits")
+        v = popcount_word(rng, 216, kpop)
+        if kpop % 2:
+            cc_e, pi_e, lcss = rng.randrange(16), rng.randrange(2), rng.randrange(4)
+            probe(v, centre_emb(cc_e, pi_e, lcss, rbits(rng, 32)), ("VU"[kpop % 4 // 2],), f"EMB cc={cc_e} pi={pi_e} lcss={lcss}", f"vocoder bits with exactly {kpop} ones; EMB", keep=8)
+        else:
+            s = voice[kpop // 2 % 4]
+            probe(v, s.as_bits(), ("VUD"[kpop // 2 % 3],), f"sync {s.name}", f"vocoder bits with exactly {kpop} ones; {s.name}", keep=8)
+    for i in range(ctx.budget(12, 120) // ctx.boost or 1):
+        f72, h108 = rbits(rng, 72), rbits(rng, 108)
+        for how, v in (("three equal vocoder frames", f72 * 3), ("two equal halves", h108 * 2), ("second half the complement of the first", h108 + ~h108),
+                       ("second half the first reversed", h108 + h108[::-1])):
+            ctx.count("foreign:derived=repeated sub-blocks")
+            cc_e, pi_e, lcss = rng.randrange(16), rng.randrange(2), i % 4
+            probe(v, centre_emb(cc_e, pi_e, lcss, v[:32] if i % 2 else rbits(rng, 32)), ("VU"[i % 2],), f"EMB cc={cc_e} pi={pi_e} lcss={lcss}", f"vocoder bits: {how}; EMB", keep=8)
+            probe(v, voice[i % 4].as_bits(), ("VUD"[i % 3],), f"sync {voice[i % 4].name}", f"vocoder bits: {how}; {voice[i % 4].name}", keep=8)
+        v = rbits(rng, 216)
+        for how, e32 in derived_embedded(rng, v):
+            ctx.count("foreign:derived=embedded bits a function of the vocoder bits")
+            cc_e, pi_e, lcss = rng.randrange(16), rng.randrange(2), rng.randrange(4)
+            probe(v, centre_emb(cc_e, pi_e, lcss, e32), ("VU"[i % 2],), f"EMB cc={cc_e} pi={pi_e} lcss={lcss}", f"embedded bits = {how}; EMB cc={cc_e} pi={pi_e} lcss={lcss}", keep=8)
+        # the burst's own EMB word again in the embedded bits / its own centre again in the vocoder bits
+        cc_e, pi_e, lcss = rng.randrange(16), rng.randrange(2), i % 4
+        e16 = emb_of[(cc_e, pi_e, lcss)]
+        for how, e32 in (("its own EMB word twice", e16 + e16), ("its own EMB word and the complement", e16 + ~e16), ("its own EMB word between zeros", bitarray("0" * 8) + e16 + bitarray("0" * 8))):
+            ctx.count("foreign:derived=embedded bits repeat the EMB word of the same burst")
+            centre = centre_emb(cc_e, pi_e, lcss, e32)
+            probe(rbits(rng, 216), centre, ("VU"[i % 2],), f"EMB cc={cc_e} pi={pi_e} lcss={lcss}", f"embedded bits = {how}; EMB cc={cc_e} pi={pi_e} lcss={lcss}", keep=8)
+            ctx.count("foreign:derived=vocoder bits repeat the centre of the same burst")
+            probe((centre * 5)[:216], centre, ("V", "U"), f"EMB cc={cc_e} pi={pi_e} lcss={lcss}", f"vocoder bits = the burst's own centre repeated, embedded bits = {how}; EMB cc={cc_e} pi={pi_e} lcss={lcss}", keep=8)
+        s_ = (voice + other)[i % (len(voice) + len(other))]
+        ctx.count("foreign:derived=vocoder bits repeat the centre of the same burst")
+        probe((s_.as_bits() * 5)[:216], s_.as_bits(), ("V", "U", "D") if s_ in voice else ("V", "U"), f"sync {s_.name}", f"vocoder bits = the burst's own sync pattern {s_.name} repeated", keep=8)
+    # ---- (6) the transplanted bursts through the other entry points of the library (announced as vocoder by the frame): every payload
+    # kind x variant through from_mmdvm, from_hytera_ipsc and one of the constructor forms / copies
+    specs = [e for e in entry_specs(rng) if announced(e) == "V"]
+    fams_e = [[e for e in specs if e["via"] == "from_mmdvm"], [e for e in specs if e["via"] == "from_hytera_ipsc"],
+              [e for e in specs if e["via"] not in ("from_mmdvm", "from_hytera_ipsc")]]
+    for i, (xv, cls, chosen) in enumerate(entry_pool):
+        if not ctx.thorough() and not chosen:  # (quick: all four EMB combinations for the first variant of every kind, one - rotating - for the others)
+            continue
+        for es in fams_e:
+            e = rng.choice(es)
+            inp = {"mode": "entry", "entry": e, "content": {"bits": c03.sbits(xv), "what": "voice-emb", "centre": "EMB", "class": cls}, "attrs": None}
+            ctx.case(("foreign-entry", json.dumps(inp, sort_keys=True)))
+            ctx.count(f"foreign:entry:{e['via']}")
+            check_entry(ctx, inp, pairs_entry, hold=hold)
+    # ---- (7) data blocks whose octets are something else: a voice burst's bits, PDUs the library serialised, a BPTC code word that
+    # fits a rate 1 block; a PI header whose 80 bits + CRC are the bits of another PDU; all three announced burst types
+    pdus = []
+    for c in rng.sample(donors, min(len(donors), 6)):
+        r, err = call(content_bits, c)
+        if not err and r[1] is not None and len(r[1][2].as_bits()) == 96:
+            pdus.append((f"the 96 bits of a serialised {c['kind']}/{c['variant']}", r[1][2].as_bits()))
+    x_voice = voice_frame(rbits(rng, 216), rng.choice(voice).as_bits())
+    blocks = foreign_blocks(rng, x_voice, pdus)
+    from okdmr.dmrlib.etsi.fec.bptc_196_96 import BPTC19696
+
+    for _ in range(64):  # a BPTC(196,96) code word with zeros where a rate 1 block has its four padding bits: a rate 1 payload that is also a coded PDU
+        name, b = rng.choice(pdus) if pdus and rng.random() < 0.5 else ("96 random bits", rbits(rng, 96))
+        w, err = call(lambda: to_bits(BPTC19696.encode(bitarray(b))))
+        if not err and not w[96:100].any():
+            blocks.append((f"BPTC(196,96) code word of {name} without its bits 96..99 (all zero)", w[:96] + w[100:]))
+            break
+    k = 0
+    for kname, dt, src, tname in payload_sources():
+        if not kname.startswith("rate") and kname != "pi":
+            continue
+        var = src.variants[0]
+        dl = len(var.random_vals(rng)["data"]) // 2
+        for how, b in blocks:
+            k += 1
+            if not full and tname not in (None, "unconfirmed") and k % 3:
+                continue
+            vals = dict(var.random_vals(rng), data=fill_octets(b, dl))
+            if kname == "pi":
+                vals["crc"] = 0
+            cc, s = rng.randrange(16), rng.choice(data)
+            ctx.case((kname, var.name, json.dumps(vals, sort_keys=True), cc, s.name))
+            ctx.count(f"foreign:block-octets:{kname}")
+            check_data(ctx, kname, dt, src, var, vals, cc, s, pairs_build, pairs_parse, bts=("D", "V", "U"), hold=hold,
+                       extra={"class": f"the data octets are {how}"})
+        if kname.startswith("rate") and (full or tname == "unconfirmed"):
+            for s in data:  # the block repeats the sync pattern the burst itself is sent with
+                vals = dict(var.random_vals(rng), data=fill_octets(s.as_bits(), dl))
+                cc = rng.randrange(16)
+                ctx.case((kname, var.name, json.dumps(vals, sort_keys=True), cc, s.name))
+                ctx.count(f"foreign:block-octets:{kname}")
+                check_data(ctx, kname, dt, src, var, vals, cc, s, pairs_build, pairs_parse, bts=("D", "V", "U"), hold=hold,
+                           extra={"class": f"the data octets repeat the burst's own sync pattern {s.name}"})
+    if not ctx.search_only and ctx.driver_ok:
+        ctx.correspond("burst.parse(foreign content)", pairs)
+        ctx.correspond("burst.entry(foreign content)", pairs_entry)
+        ctx.correspond("burst.build(foreign content)", pairs_build)
+        ctx.correspond("burst.parse(foreign blocks)", pairs_parse)
+
+
 def run(ctx):
     Burst, BT, DT, SP, ST, EMB = lib()
     payload_text.kinds = {k.name: k for k in c03.kinds()}
@@ -1629,7 +2301,13 @@ def run(ctx):
         "types x call / frame / packet types, copy / deepcopy / pickle, generator functions) x all 10 sync patterns + EMB; attribute sweep: ~110 "
         "(attribute, value) tokens per object of every entry family x every sync + EMB, cumulative on one object, shuffled half of the time. "
         "ambient: a fixed sample (~100 inputs of every mode; thorough adds a seeded share) re-evaluated under 13 in-process settings and in one "
-        "child interpreter python -O -bb -W error -X dev PYTHONOPTIMIZE=2. distinct = distinct (kind, variant, fields, cc, sync) / burst bit "
+        "child interpreter python -O -bb -W error -X dev PYTHONOPTIMIZE=2. foreign content: vocoder bits = the halves of a serialised data "
+        "burst of every payload kind x variant (valid check fields; 10+ mutations on the first donor of each variant) x complete cross "
+        "(EMB colour code equal / different x PI x 4 LCSS x embedded bits random / null / VBPTC(32,11) word of each family x V / U) + every voice "
+        "sync x V / U / D + other syncs; embedded bits = all 4096 VBPTC(32,11) words (both parity rows) with LCSS 0 x PI x V / U and every 8th "
+        "with LCSS 1..3, 384 sampled words x 4 neighbours / cosets, embedded LC fragments x 4 LCSS and as superframe sequences, ~110 "
+        "dictionary words (every FEC encoder x option, short LC, sync, EMB, slot type, source literals) x placements x LCSS / syncs; "
+        "derived quantities; data blocks holding foreign objects x 13 block kinds x D / V / U. distinct = distinct (kind, variant, fields, cc, sync) / burst bit "
         "string / history spec / entry spec"
     )
     ctx.trusted_base += [
@@ -1647,6 +2325,7 @@ def run(ctx):
         "reuse histories change a payload by assigning its public attributes (to the values a constructor call with the new fields stores), replace slot_type / sync_or_embedded_signalling / data by new objects; slot type objects are not changed in place",
         "fec_parity_ok / emb_parity_ok / crc_ok (C04) are not compared",
         "attributes set by hand: those the model's serialisation does not read (Props/C01 serialise_reads_data / serialise_reads_voice / serialise_ignores_aux); has_slot_type of a data burst, has_emb, is_data_or_control select the serialisation path and are not swept; the two Hytera pseudo bursts (IPSC sync / wakeup) are outside the property: only 'a constructed one returns the bits it was given'",
+        "foreign content: objects are harvested from the encoders and serialisers the library has today (a code the library cannot encode - AMBE frames, CACH TACT words, CRC-7 of reverse channel messages beyond what the exhaustive VBPTC(32,11) sweep contains - is not generated); sequences longer than one voice superframe are not run",
         "ambient settings are sampled (fixed ~100 inputs in quick), not swept over the whole generator; forced thread interleavings, bitarray / numpy versions, low recursion limits, little-endian containers are out of scope",
     ]
     rng = ctx.rng
@@ -1881,6 +2560,9 @@ def run(ctx):
                 ctx.count("structured:slot-type-word-inside-voice-burst")
                 check_voice(ctx, x, bt, f"{what}, slot type positions hold the word of cc={cc_} {dtm.name}",
                             {"mode": "voice", "bits": c03.sbits(x), "burst_type": bt, "class": f"slot type positions hold SlotType({cc_}, {dtm.name})"}, pairs_voice, hold=hold)
+    # ---- payload content that is itself a valid object of another kind (vocoder bits = a serialised data burst, embedded bits = code
+    # words of every encoder, data octets = a voice burst / another PDU, ...)
+    check_foreign(ctx, hold)
     # ---- provenance: every entry point that yields a Burst x every sync pattern; attributes set by hand; the library's generators
     pairs_entry = []
     check_provenance(ctx, pairs_entry, hold)
